@@ -263,6 +263,26 @@ func g05Pac(repo string, w *Out) error {
 	w.DefBool("parse_proxy_has_direct_literal", haveDirectLit)
 	w.DefStr("parse_proxy_direct_literal", directLit)
 	w.DefStr("parse_proxy_cut_sep", cutSep)
+	// port validation: `if _, err := strconv.ParseUint(port, 10, 16); err != nil { return noProxy, <err> }`
+	validates := false
+	for _, st := range stm {
+		is, ok := st.(*ast.IfStmt)
+		if !ok || is.Init == nil {
+			continue
+		}
+		if f.Src(is.Init) == "_, err := strconv.ParseUint(port, 10, 16)" && f.Src(is.Cond) == "err != nil" && returnsNonNilLast(f, is.Body.List) {
+			validates = true
+		}
+	}
+	for _, c := range f.CallsIn(pp.Body) {
+		if strings.HasPrefix(c, "strconv.") && c != "strconv.ParseUint(port, 10, 16)" {
+			return fmt.Errorf("parseProxy: %s is not a shape the model knows", c)
+		}
+	}
+	if !validates && hasCall(f, pp.Body, "strconv.ParseUint(port, 10, 16)") {
+		return fmt.Errorf("parseProxy: strconv.ParseUint(port, 10, 16) is called but its error does not fail the entry")
+	}
+	w.DefBool("parse_proxy_validates_port", validates)
 	// the final composite literal must take Host and Port from SplitHostPort's results
 	last := f.Src(stm[len(stm)-1])
 	if !regexp.MustCompile(`^return Proxy\{ ?Mode: parseMode\(\w+\), Host: host, Port: port,? ?\}, nil$`).MatchString(last) ||
